@@ -4,7 +4,7 @@
    label = [k, t, d, hd, lv, sub]  with sub = index into subs for k = "sub".
    Flat labelled language (same encoding as Meaning), reachability, co-reachability and the
    Nerode partition (Moore refinement). *)
-EXTENDS Naturals, Sequences, FiniteSets, TLC
+EXTENDS Naturals, Integers, Sequences, FiniteSets, TLC
 
 ALab(l) == [k |-> l.k, t |-> l.t, d |-> l.d, hd |-> l.hd, lv |-> l.lv]
 AOpen(lv) == [k |-> "open", t |-> "", d |-> "", hd |-> FALSE, lv |-> lv]
@@ -45,13 +45,12 @@ Reach(d) == Grow(d, TRUE, {d.start}, {d.start})
 CoReach(d) == LET a == { d.acc[i] : i \in 1..Len(d.acc) } IN Grow(d, FALSE, a, a)
 
 Alphabet(d) == { d.tr[i].l : i \in 1..Len(d.tr) }
-\* target of s on symbol a, 0 = none (states are >= 0; 0 is only used by complgen for its dead state,
-\* which never has outgoing transitions, so reading 0 as `no transition` is exact)
+\* target of s on symbol a, -1 = no transition
 Delta(d, s, a) == LET is == { i \in TrFrom(d, s) : d.tr[i].l = a } IN
-                  IF is = {} THEN 0 ELSE d.tr[CHOOSE i \in is : TRUE].t
+                  IF is = {} THEN -1 ELSE d.tr[CHOOSE i \in is : TRUE].t
 Deterministic(d) == \A s \in AStates(d) : \A a \in Alphabet(d) : Cardinality({ i \in TrFrom(d, s) : d.tr[i].l = a }) <= 1
 BlockOf(P, s) == CHOOSE B \in P : s \in B
-Sig(d, P, s) == [a \in Alphabet(d) |-> LET t == Delta(d, s, a) IN IF t = 0 \/ t \notin UNION P THEN {} ELSE BlockOf(P, t)]
+Sig(d, P, s) == [a \in Alphabet(d) |-> LET t == Delta(d, s, a) IN IF t = -1 \/ t \notin UNION P THEN {} ELSE BlockOf(P, t)]
 Refine(d, P) == UNION { { { s \in B : Sig(d, P, s) = Sig(d, P, r) } : r \in B } : B \in P }
 RECURSIVE Moore(_, _)
 Moore(d, P) == LET Q == Refine(d, P) IN IF Q = P THEN P ELSE Moore(d, Q)
